@@ -282,11 +282,12 @@ TWOQ_PARAM = {"RZZ", "RXX", "RYY", "FSIM", "CU3", "CU2", "CU1", "CRX", "CRY", "C
 
 
 def build_program(mk, key, kind="cplx"):
-    """returns list of (name, params list, qubits tuple, controls tuple|None, array)"""
+    """key: name in PROGRAMS or a list of gate specs.
+    returns list of (name, params list, qubits tuple, controls tuple|None, array)"""
     letters = {}
     out = []
     rawn = 0
-    for spec in PROGRAMS[key]:
+    for spec in (PROGRAMS[key] if isinstance(key, str) else key):
         opts = {}
         if isinstance(spec[-1], dict):
             opts = spec[-1]
@@ -642,6 +643,62 @@ def mps_simulators(mk, sim, prog, q):
                               m ** 2, want * want)
                     else:
                         mk.eq(f"{sim}: compute_marginal({where}, fix={fix}) == marginal probabilities of {nm}", m, want)
+    finally:
+        stubs.OPTIONS["svd_positive"] = True
+
+
+def _ordered_pairs(N, nonadjacent=False):
+    return [(i, j) for i in range(N) for j in range(N) if i != j and (not nonadjacent or abs(i - j) > 1)]
+
+
+_PT = []
+for _sim, _cfg in (("CircuitPermMPS", "-"), ("CircuitMPS", "-"), ("Circuit", "lazy"), ("Circuit", "default"), ("CircuitDense", "-")):
+    for _n in (3, 4):
+        for _g in _ordered_pairs(_n, nonadjacent=True):
+            far = abs(_g[0] - _g[1]) > 2
+            if _sim == "CircuitMPS" and far:
+                continue        # swap + swap-back over three bonds: certificate search beyond the budget (see META outside)
+            quick = _sim == "CircuitPermMPS" or (_n == 3 and _g == (0, 2)) or (_n == 4 and _g == (3, 0) and _sim != "CircuitMPS")
+            _PT.append({"sim": _sim, "cfg": _cfg, "N": _n, "g": _g, "_tiers": ("quick", "thorough") if quick else ("thorough",)})
+
+
+@obligation(PROP, params=_PT, rounds=2, timeout_s=500, wall_s=400, max_rows=80000)
+def perm_tracking(mk, sim, cfg, N, g):
+    """a non-adjacent two-qubit gate on the ordered pair g, then SWAP on EVERY ordered pair of qubits (one path
+    per pair), then IDEN and further one- and two-qubit gates on the swapped qubits: every simulator holds the
+    reference state.  For CircuitPermMPS the first gate makes the tracked site <-> qubit map non-trivial, and
+    the SWAP / later gates must address logical qubits through it."""
+    mk.encodes(cmps.CircuitPermMPS._apply_gate, cmps.CircuitPermMPS.get_psi, cmps.CircuitPermMPS.calc_qubit_ordering,
+               cmps.CircuitMPS.to_dense, cmps.CircuitMPS.amplitude, ccore.CircuitBase._apply_gate, G.apply_swap)
+    pairs = _ordered_pairs(N)
+    sw = mk.choice("swap_pair", pairs)
+    t = next(q for q in range(N) if q not in sw) if N > 2 else sw[1]
+    specs = [("RY", "a", 0), ("RX", "b", 1), ("RY", "c", 2)] + ([("RX", "a", 3)] if N == 4 else [])
+    specs += [("CX",) + tuple(g), ("SWAP",) + tuple(sw), ("IDEN", sw[0]), ("RY", "b", sw[1]), ("CX", sw[0], t), ("CZ", sw[1], sw[0])]
+    p = build_program(mk, specs, kind="real")
+    v = ref_state(mk, p, N, basis0(mk, N))
+    mps = sim in _MPS_SIMS
+    if mps:
+        stubs.OPTIONS["svd_positive"] = False
+    try:
+        if mps:
+            circ = getattr(qtn, sim)(N, gate_opts={"cutoff": 0.0})
+        else:
+            circ = qtn.Circuit(N, **_EXACT_CFG[cfg]) if sim == "Circuit" else qtn.CircuitDense(N)
+        apply_program(mk, circ, p)
+        kw = NOSIMP if sim == "Circuit" else {}
+        tag = f"{sim}: CX{tuple(g)}; SWAP{tuple(sw)}; IDEN; RY; CX; CZ"
+        mk.eq(f"{tag}: to_dense() == reference state", np.asarray(circ.to_dense(**kw)).reshape(-1), v)
+        for b in ("0" * N, "1" * N, ("10" * N)[:N], ("011" * N)[:N]):
+            mk.eq(f"{tag}: amplitude('{b}')", circ.amplitude(b, **kw), v[int(b, 2)])
+        if sim == "CircuitPermMPS":
+            mk.same(f"{tag}: tracked ordering is a permutation of the qubits", sorted(circ.qubits), list(range(N)))
+            mk.same(f"{tag}: calc_qubit_ordering() == tracked ordering", tuple(circ.calc_qubit_ordering()), tuple(circ.qubits))
+        if not mk.sym:
+            # numeric supplement (sampling is value-dependent control flow): samples have non-zero probability
+            probs = np.abs(np.asarray(v, dtype=complex)) ** 2
+            for x in circ.sample(12, seed=mk.rng.randint(0, 10 ** 6)):
+                mk.same(f"{tag}: sampled string {x} has non-zero probability", bool(probs[int(x, 2)] > 1e-12), True)
     finally:
         stubs.OPTIONS["svd_positive"] = True
 
